@@ -341,7 +341,7 @@ def _always_leaves(block: Sequence[ast.stmt]) -> bool:
     return False
 
 
-def guards_of(func_node: ast.AST, target: ast.AST) -> List[Tuple[ast.AST, bool]]:
+def guards_of(func_node: ast.AST, target: ast.AST, include_asserts: bool = True) -> List[Tuple[ast.AST, bool]]:
     """Atomic (test, polarity) facts that hold whenever ``target`` executes, derived from
     enclosing ``if``/``while``/conditional expressions/``and``-``or`` operands and from
     preceding early exits (``if c: return`` gives ``not c`` afterwards) in enclosing blocks.
@@ -356,7 +356,7 @@ def guards_of(func_node: ast.AST, target: ast.AST) -> List[Tuple[ast.AST, bool]]
                         facts.extend(_atoms(prev.test, False))
                     elif isinstance(prev, ast.If) and prev.orelse and _always_leaves(prev.orelse) and not _always_leaves(prev.body):
                         facts.extend(_atoms(prev.test, True))
-                    elif isinstance(prev, ast.Assert):
+                    elif isinstance(prev, ast.Assert) and include_asserts:
                         facts.extend(_atoms(prev.test, True))
                 visit_stmt(stmt)
                 return True
